@@ -18,13 +18,18 @@ def run_config(chk, tier, cfgname):
     chk.not_decided += ["the bound 'fewer than rho*H/(1-rho) allocations' and 'heap stays within a constant factor' "
                         "(arithmetic over unbounded counters: a proof/solver task, another family)",
                         "that the survivors counted in remembered_gcs are the documented quantity for concrete workloads",
-                        "'returns with zero debt' as an arithmetic fact after finish_cycle(true)",
-                        "wake-up thresholds on concrete allocation counts"]
+                        "non-finite pacing values (NaN / infinite factors): the sign analysis behind the zero-debt and "
+                        "wake-up-threshold clauses assumes finite values, as the pacing documentation does"]
+    chk.explain("C09 (finished cycles, decided on terms with a sign analysis): right after a roll-over that forgets the debt - "
+                "what the driver does after an atomic full cycle - allocation_debt is zero on every path; with `a` allocations "
+                "since and no work done it is exactly max(a - max(survivors * sleep_factor, min_sleep), 0): zero while asleep, "
+                "positive once the allocations exceed the wake-up amount.")
     common.protocol_rows(chk, prog, "exit-structure", ["collect_debt", "mark_debt", "cycle_debt"], with_pacing=True, aspects=("pacing",))
     for t in ("trace", "trace_weak", "resurrect", "mark_one", "sweep_one", "backward_barrier", "forward_barrier", "link"):
         typestate.apply(chk, "credited-at-most-once:" + t, t, aspects=("credits", "credits-over", "credits-repeat"))
     rules_debt.check_formula(chk, prog)
     rules_debt.check_finish_cycle(chk, prog)
+    rules_debt.check_sleep(chk, prog)
     rules_debt.check_helpers(chk, prog)
 
 
